@@ -52,7 +52,8 @@ package remember
 //@   ensures[C18] add_error_outcome: each Store.AddRememberToken(_, _) -> ?e => e != nil ==> (result.1 != nil && !emits Cook.Put(_, _))
 //@
 //@ func Middleware#1#1
-//@   property C07
+//@   property C07 C17
+//@   ensures[C17] no_secret_leak: secrets_clean
 //@   -- the middleware only consults the cookie when nobody is logged in, and always
 //@   -- runs the wrapped handler
 //@   ensures mw_only_anonymous: each Store.UseRememberToken(_, _) =>
@@ -60,7 +61,8 @@ package remember
 //@   ensures mw_next_runs: !panics ==> emits Next.ServeHTTP(_, _, _)
 //@
 //@ func (*Remember).AfterPasswordReset
-//@   property C06
+//@   property C06 C17
+//@   ensures[C17] no_secret_leak: secrets_clean
 //@   -- after a password recovery every remember token of that account is revoked and the
 //@   -- browser's cookie removed
 //@   ensures reset_hook: result.1 == nil ==> ((emits Cook.Del("rm")) &&
